@@ -48,10 +48,12 @@ func (x *cexec) Main() {
 	w := x.w
 	w.x.ending = sc.ending
 	w.st.failPut = sc.failPut
+	w.wrap = true
+	w.faulty = sc.cancel || sc.failPut
 	ctx, cancel := context.WithCancel(context.Background())
 	var shared *blockservice.Session
 	if sc.c.Entry == "session" {
-		shared = blockservice.NewSession(ctx, w.bs)
+		shared = blockservice.NewSession(ctx, w.sessionBS())
 	}
 	start := func(name string, c caseT) {
 		rec := &callRec{c: c}
@@ -125,6 +127,8 @@ func cs(call, entry string, sessEx bool, req, script string) caseT {
 
 func concScripts(thorough bool) []*cscript {
 	gb := cs("GetBlock", "session", true, "B", "B C")
+	gbC := cs("GetBlock", "session", true, "C", "B C")
+	gbS := cs("GetBlocks", "session", false, "B C", "B C")
 	gb2 := cs("GetBlock", "direct", false, "B", "B")
 	all := []*cscript{
 		{name: "honest", quick: true, c: cs("GetBlocks", "direct", false, "A B C", "B C"), ending: "close", delta: 1},
@@ -133,6 +137,8 @@ func concScripts(thorough bool) []*cscript {
 		{name: "cancel-during-local-phase", quick: true, c: cs("GetBlocks", "ctxsession", true, "A A2 B", "B"), ending: "hang", cancel: true},
 		{name: "put-fails", quick: true, c: cs("GetBlocks", "direct", false, "B C", "B C"), ending: "close", failPut: true, delta: 2},
 		{name: "shared-session-two-calls", quick: true, c: cs("GetBlocks", "session", true, "B C", "B C"), second: &gb, ending: "close", delta: -1},
+		{name: "fresh-session-two-first-getblocks", quick: true, c: cs("GetBlock", "session", true, "B", "B C"), second: &gbC, ending: "close"},
+		{name: "fresh-session-plain-exchange", quick: true, c: cs("GetBlock", "session", false, "C", "B C"), second: &gbS, ending: "close"},
 		{name: "adversarial-exchange", quick: true, c: cs("GetBlocks", "direct", false, "A B", "D Bbad B"), ending: "close"},
 		{name: "duplicates", c: cs("GetBlocks", "direct", false, "B B A", "B B"), ending: "close", delta: 1},
 		{name: "getblock-vs-getblocks", c: cs("GetBlocks", "direct", false, "B C", "B C"), second: &gb2, ending: "close", delta: -1},
